@@ -4,7 +4,7 @@ From Coq Require Import List ZArith.
 Import ListNotations.
 From Gen Require Import SelGen.
 From Model Require Import Key Sel GFI GFIEdit Derived.
-From Proofs Require Import GFIBase GFIRef GFIWf GFIConsistent GFIProject GFISim GFIGen GFIEditProofs GFIEditChoices GFIDerived GFICombinators.
+From Proofs Require Import GFIBase GFIRef GFIWf GFIConsistent GFIProject GFISim GFIGen GFIEditProofs GFIEditChoices GFIDerived GFICombinators GFIRegenIdentity.
 Open Scope Z_scope.
 
 Theorem C07_regenerate_weight : forall g k t s a tg t' w b,
@@ -31,9 +31,27 @@ Theorem C07_selected_site_redrawn_from_prior : forall d k p vold sold s tg,
 Proof. intros. simpl. destruct (check s); reflexivity. Qed.
 Print Assumptions C07_selected_site_redrawn_from_prior.
 
+(* "With an empty selection and unchanged arguments it returns the same trace with weight 0": for every selection
+   that selects nothing (Selection.none() is one), on every program that accepts Regenerate *)
+Theorem C07_regenerate_nothing_is_identity : forall g k t s tg,
+  wfg g -> rssimple g -> wft g t -> empty_sel s -> exists b, edit g k t (RRegen s) (t_args t) tg = Ok (t, 0, b).
+Proof. exact regenerate_nothing_is_identity. Qed.
+Print Assumptions C07_regenerate_nothing_is_identity.
+Theorem C07_none_selects_nothing : empty_sel NoneSel.
+Proof. exact none_is_empty. Qed.
+Print Assumptions C07_none_selects_nothing.
+
 (* ---- non-vacuity: concrete non-trivial programs and traces meeting the hypotheses above (proofs/GFIWitness.v) ---- *)
 From Proofs Require Import GFIWitness.
 Example C07_hypotheses_met : wfg ex_r /\ wft ex_r ex_rt /\
   exists t' w b, edit ex_r ex_k2 ex_rt (RRegen ex_s) [VZ 5] [tg_unknown] = Ok (t', w, b) /\ t' <> ex_rt /\ w <> 0.
 Proof. exact (conj ex_r_wfg (conj ex_r_wft ex_regenerate_succeeds)). Qed.
 Print Assumptions C07_hypotheses_met.
+Example C07_identity_hypotheses_met :
+  (wfg ex_r /\ rssimple ex_r /\ wft ex_r ex_rt) /\
+  (wfg ex_scan /\ rssimple ex_scan /\ wft ex_scan (tr_of ex_scan ex_scan_a) /\ length (t_choices (tr_of ex_scan ex_scan_a)) = 3%nat).
+Proof.
+  split; [exact (conj ex_r_wfg (conj ex_r_rssimple ex_r_wft))|].
+  destruct ex_scan_rssimple as [H1 H2]. destruct ex_scan_wft as [H3 H4]. exact (conj H2 (conj H1 (conj H3 H4))).
+Qed.
+Print Assumptions C07_identity_hypotheses_met.
